@@ -301,11 +301,31 @@ pub fn det_case(
     let mut failing = by_tasks[1].clone();
     let mut fr = rng.sub("failing");
     let pick = if subject.api == crate::exec::Api::Preprocess && fr.chance(3, 4) {
-        if fr.chance(1, 2) { 4 } else { 6 }
+        [4, 6, 7][fr.below(3) as usize]
+    } else if !subject.defines.is_empty() && fr.chance(1, 2) {
+        // subjects that take API-level defines meet the history that dies inside one
+        7
     } else {
-        fr.below(7)
+        fr.below(8)
     };
     match pick {
+        7 => {
+            // a compile that fails while an API-level define is being expanded (wrong number of
+            // arguments inside the define's value), with 0-3 other defines in front of it
+            let mut fs = snippet_fs("#define CLAMPQ(a) a\nstatic const int q = QUALITY ;\n");
+            fs.policy = crate::simfs::Policy::ParentRelative;
+            fss.push(fs);
+            let mut t = TaskSpec::compile(fss.len() - 1, "test.rssl", subject.target);
+            t.api = subject.api;
+            t.no_pipeline = true;
+            t.buffer_address = subject.buffer_address;
+            for k in 0..fr.below(4) {
+                t.defines.push((format!("PAD{k}"), k.to_string()));
+            }
+            t.defines.push(("QUALITY".into(), "CLAMPQ(2,3)".into()));
+            t.subject = false;
+            failing = t;
+        }
         6 => {
             // preprocessing that fails right after a few ## pastes (state left half-way)
             let mut fs = snippet_fs(
